@@ -115,6 +115,8 @@ func checkC07(c *Ctx, r *Report) {
 	// decoding says must not depend on what the value held (rule shared with C17)
 	checkDecoderAssignment(c, r, "decoders-overwrite", 28, nil)
 
+	checkIDStringHeader(c, r)
+
 	r.Rule("accepts-minimal-encoding", "the decoder has a success path for the specification's shortest valid encodings", 10)
 	for _, m := range minimalEncodings {
 		fn := c.Method(m.Pkg, m.Type, m.Method)
